@@ -8,3 +8,7 @@ pub mod vm;
 mod c33_align;
 #[cfg(kani)]
 mod c23_header;
+#[cfg(kani)]
+mod side;
+#[cfg(kani)]
+mod c20_side;
